@@ -66,7 +66,7 @@ EXCEPTIONS = [
          reason="end_idx is always `start offset of a char + its len_utf8()` taken from char_indices of the same string: a char boundary <= len (C17.R3 checks every definition of the bound)", requires=["C17.R3b"]),
     # ---- source view ---------------------------------------------------------------------------------------
     dict(fn="<sourceview::RevTokenIter<'view, 'map> as core::iter::traits::iterator::Iterator>::next", what="Overflow:Sub:usize",
-         desc="var:(&str, usize, usize).1,cast<usize>(Token::get_dst_col(*))", count=1,
+         desc="var:(&str, usize, usize).1,cast<usize>(*.raw.dst_col)", count=1,
          reason="the cached column belongs to a token later in the sorted token list on the same line (the cache is reused only under dst_line equality), so it is >= this token's column (C04.R1-R3, C17.R2)",
          requires=["C04.R1", "C04.R2", "C17.R2"]),
     dict(fn="<sourceview::RevTokenIter<'view, 'map> as core::iter::traits::iterator::Iterator>::next", what="Overflow:Sub:usize",
@@ -99,12 +99,12 @@ EXCEPTIONS = [
     dict(fn="<types::SourceMapSectionIter<'a> as core::iter::traits::iterator::Iterator>::next::{closure#0}", what="Overflow:Add:u32", desc="^arg1.next_idx,1", count=1,
          reason="incremented only after get_section(next_idx) returned Some; fewer than 2^32 - 1 sections"),
     # ---- lookups --------------------------------------------------------------------------------------------------
-    dict(fn="types::SourceMap::lookup_token", what="Overflow:Sub:u32", desc="arg3,Token::get_dst_col(var:Token)", count=1,
+    dict(fn="types::SourceMap::lookup_token", what="Overflow:Sub:u32", desc="arg3,var:Token.raw.dst_col", count=1,
          reason="greatest_lower_bound returns a token with (dst_line, dst_col) <= (line, col) lexicographically (C04.R3/R4); under the dominating guard dst_line == line (C07.R4) this gives dst_col <= col",
          requires=["C04.R1", "C04.R2", "C04.R3", "C04.R4", "C07.R4"]),
-    dict(fn="types::SourceMapIndex::lookup_token", what="Overflow:Sub:u32", desc="arg2,SourceMapSection::get_offset(*).0", count=1,
+    dict(fn="types::SourceMapIndex::lookup_token", what="Overflow:Sub:u32", desc="arg2,*.offset.0", count=1,
          reason="the section comes from greatest_lower_bound keyed by get_offset with query (line, col): offset <= (line, col) lexicographically, so off_line <= line (C04.R4, C08.R1); sections of a decoded index are sorted by offset and offsets are immutable (C08.R5)", requires=["C04.R4", "C08.R1", "C08.R5"]),
-    dict(fn="types::SourceMapIndex::lookup_token", what="Overflow:Sub:u32", desc="arg3,SourceMapSection::get_offset(*).1", count=1,
+    dict(fn="types::SourceMapIndex::lookup_token", what="Overflow:Sub:u32", desc="arg3,*.offset.1", count=1,
          reason="evaluated only on the line == off_line branch (C08.R1), where the lexicographic bound gives off_col <= col (sections sorted: C08.R5)", requires=["C04.R4", "C08.R1", "C08.R5"]),
     # ---- utils ------------------------------------------------------------------------------------------------------
     dict(fn="utils::split_path", what="index", desc="arg1[Range{start:var:usize,end:try(Iterator::next(var:MatchIndices<*>)).0}]", count=1,
